@@ -76,6 +76,21 @@ def make_engine(F):
     spec_bdd.install(E)
     return E
 
+def fixed_point_arms(R, E):
+    """the FixedPoint / Subtree / Quantifier arms of eval_recursive (engine S): one call of fp from const(initial) with the transformer
+    y -> eval(body[X := Subtree y]); Subtree evaluates to the stored diagram; a quantifier is exists / all over the listed names"""
+    res = E.explore(EVF)
+    n = 0
+    for (I, params, r, obls) in res:
+        v = spec_parser.variant_of(I, params[1].term)
+        if v not in ('FixedPoint', 'Subtree', 'Quantifier'): continue
+        for o in obls:
+            n += 1
+            R.obligation(o.ok, '%s | %s | %s' % (EVF, short_label(o.label), o.world))
+            if not o.ok:
+                R.violation('%s / %s / world[%s]' % (EVF, short_label(o.label), o.world), short_label(o.label).split(':')[0], '%s fails in abstract world [%s]' % (o.label, o.world), o.loc, o.detail)
+    R.count('evaluator-fixed-point-obligations', n)
+
 def check_C03(F, tier, t0):
     R = Report('C03')
     E = make_engine(F)
@@ -175,6 +190,7 @@ def check_C01(F, tier, t0):
     guarded(R, 'T tokens', engine_t.rule_tokens, F, R, 'all')
     guarded(R, 'T operators', engine_t.rule_operator_tables, F, R)
     guarded(R, 'T regex', engine_t.rule_regex, F, R)
+    guarded(R, 'T input text', engine_t.rule_input_text, F, R)
     guarded(R, 'X5', engine_x.rule_X5, F, R)      # two names of one formula must not share an id: they would be one variable of the diagram
     R.floor('functions', 28); R.floor('worlds', 40); R.floor('T:symbol-spellings', 20); R.floor('T:keyword-spellings', 23)
     R.floor('T:binary-operator-rows', 8); R.floor('T:counting-operator-rows', 5); R.floor('T:fixed-point-rows', 2)
@@ -218,6 +234,7 @@ def check_C02(F, tier, t0):
     guarded(R, 'E5', engine_e.rule_E5_events, R, res)
     guarded(R, 'H', engine_e.rule_H, F, R)
     guarded(R, 'X5', engine_x.rule_X5, F, R)      # distinct variable names get distinct ids: two variables that alias are one symbol to the diagram
+    guarded(R, 'S eval_recursive', run_S, R, E, [EVF, RVF])      # formula evaluation is one of the construction routes: a valid formula is the true leaf only if every arm computes its construct
     # functions that do not call mk_choice must not build nodes any other way: covered by E1 (constructor sites) workspace-wide
     R.floor('mk_choice-call-sites', 6); R.floor('E1:Choice-constructor-sites', 2); R.floor('functions', 12); R.floor('H:impl-bodies', 4); R.floor('mk_choice-sites-x-worlds', 8)
     return finish(R, 'other', tier, t0,
@@ -357,6 +374,7 @@ def front_end(R, F):
     guarded(R, 'T tokens', engine_t.rule_tokens, F, R, 'all')
     guarded(R, 'T operators', engine_t.rule_operator_tables, F, R)
     guarded(R, 'T regex', engine_t.rule_regex, F, R)
+    guarded(R, 'T input text', engine_t.rule_input_text, F, R)
 
 def evaluation(R, E):
     """the evaluator and the operations it dispatches to (the proofs of C01 / C03 / C04 / C05), for properties stated about `the formula`"""
@@ -395,6 +413,7 @@ def check_C08(F, tier, t0):
     guarded(R, 'T tokens', engine_t.rule_tokens, F, R, 'all')
     guarded(R, 'T operators', engine_t.rule_operator_tables, F, R)
     guarded(R, 'T regex', engine_t.rule_regex, F, R)
+    guarded(R, 'T input text', engine_t.rule_input_text, F, R)
     R.floor('A1:consuming-parse-functions', 10); R.floor('A1:calls-to-consuming-functions', 30); R.floor('A2:parse-functions-walked', 10)
     R.floor('A3:constructor-paths', 20); R.floor('A3:constructors-expected', 13); R.floor('T:regex-symbols', 20); R.floor('T:regex-groups', 6)
     return finish(R, 'other', tier, t0,
@@ -415,6 +434,7 @@ def check_C09(F, tier, t0):
     guarded(R, 'S/O quantifier support', run_S, R, E, ['exists_impl', 'exists', 'all'])
     guarded(R, 'X4 vars', engine_x.rule_X4, F, R, ('vars', 'export'))      # -r lists every variable of the text (vars, not free_vars)
     guarded(R, 'X5', engine_x.rule_X5, F, R)      # every name its own id: a name that shares an id with another drops out of the variable list
+    guarded(R, 'S eval_recursive (FixedPoint / Subtree / Quantifier arms)', fixed_point_arms, R, E)      # a fixed-point name leaves the answer only through the substitution
     guarded(R, 'X3 order', engine_x.rule_X3, F, R)
     front_end(R, F)
     R.floor('functions', 5); R.floor('worlds', 16); R.floor('X4:extract_vars', 1); R.floor('X4:free_vars-fill', 1)
@@ -512,7 +532,7 @@ def check_C12(F, tier, t0):
                 for r_ in live:
                     s2 = _copy.copy(s); s2.fn = r_; variants.append(s2)
             def discharge(sv):
-                for rule in (D.R0, D.R11, D.R8, D.R4, D.R10, D.R6, D.RS):
+                for rule in (D.R0, D.R11, D.R8, D.R4, D.R10, D.R14, D.R6, D.RS):
                     try:
                         rr = rule(sv)
                     except Exception as ex:
@@ -582,6 +602,7 @@ def check_C13(F, tier, t0):
     guarded(R, 'X5', engine_x.rule_X5, F, R)      # in a shared environment a second formula's new variable must not take an id that is in use
     guarded(R, 'X7', engine_x.rule_X7, F, R)      # the exported diagram shows a shared node once (de-duplicated node and edge lists)
     guarded(R, 'XR', engine_x.rule_references, F, R)      # evaluating a formula leaves its definitions alone (a second evaluation sees what the first saw)
+    guarded(R, 'FP loop shape', run_S, R, E, ['fp'])      # the iterator stops on structural equality of two iterates, not on anything the table remembers
     guarded(R, 'H', engine_e.rule_H, F, R)      # the table is keyed by the diagram: Eq / Ord / Hash of the symbol must read the same key
     def g():
         for (key, rule, msg, loc, cell) in engine_g.guard_regions(F, R):
@@ -620,6 +641,7 @@ def check_C14(F, tier, t0):
     guarded(R, 'X6', engine_x.rule_X6, F, R)
     guarded(R, 'X4 dot filter', engine_x.rule_X4, F, R, ('dotfilter',))
     guarded(R, 'X10 node labels', engine_x.rule_X10, F, R)
+    guarded(R, 'X4 lineage', engine_x.rule_X4, F, R, ('model', 'retain'))      # the exported diagram is the one the table shows (after --retain-choices and --model)
     guarded(R, 'X7', engine_x.rule_X7, F, R)
     guarded(R, 'X8', engine_x.rule_X8, F, R, 'rsbdd', 'executable')
     guarded(R, 'T filter spellings', engine_t.rule_tte, F, R)
@@ -639,6 +661,8 @@ def check_C15(F, tier, t0):
     guarded(R, 'L-W', engine_l.rule_width, F, R, 'n_queens_gen')
     guarded(R, 'N', engine_n.rule_queens, F, R)
     guarded(R, 'X8', engine_x.rule_X8, F, R, 'n_queens_gen')
+    guarded(R, 'X8 flush', engine_x.rule_X8_flush, F, R, 'n_queens_gen')
+    guarded(R, 'L remarks', engine_l.rule_comment_holes, F, R, 'n_queens_gen')
     front_end(R, F)       # the emitted text means what the language's tokenizer and operator tables say it means
     evaluation(R, make_engine(F))       # ... and what the evaluator and the operations it dispatches to compute for it
     guarded(R, 'X3', engine_x.rule_X3, F, R); guarded(R, 'T filter spellings', engine_t.rule_tte, F, R)       # ... and the models are listed through the table printer (-t / -v, -f)
@@ -657,6 +681,8 @@ def check_C16(F, tier, t0):
     guarded(R, 'L', engine_l.rule_max_clique, F, R)
     guarded(R, 'L templates', engine_l.rule_max_clique_templates, F, R)
     guarded(R, 'X8', engine_x.rule_X8, F, R, 'max_clique_gen')
+    guarded(R, 'X8 flush', engine_x.rule_X8_flush, F, R, 'max_clique_gen')
+    guarded(R, 'L remarks', engine_l.rule_comment_holes, F, R, 'max_clique_gen')
     front_end(R, F)       # the emitted text means what the language's tokenizer and operator tables say it means
     evaluation(R, make_engine(F))       # ... and what the evaluator and the operations it dispatches to compute for it
     guarded(R, 'X3', engine_x.rule_X3, F, R); guarded(R, 'T filter spellings', engine_t.rule_tte, F, R)       # ... and the models are listed through the table printer (-t / -v, -f)
@@ -675,6 +701,7 @@ def check_C18(F, tier, t0):
     guarded(R, 'L writers', engine_l.rule_graph_writers, F, R)
     guarded(R, 'L colours', engine_l.rule_colour_vertices, F, R)
     guarded(R, 'X8', engine_x.rule_X8, F, R, 'random_graph_gen')
+    guarded(R, 'X8 flush', engine_x.rule_X8_flush, F, R, 'random_graph_gen')
     guarded(R, 'X8 order', engine_x.rule_X8_after_input, F, R, 'random_graph_gen', ('random_graph_gen::read_graph', 'random_graph_gen::generate_graph', 'random_graph_gen::augment_colors'))
     R.floor('L:refuse-not-truncate', 1); R.floor('L:candidate-push-sites', 1); R.floor('L:complete-count', 1); R.floor('L:truth-table-rows', 22); R.floor('L:edge-writer-sites', 3)
     return finish(R, 'other', tier, t0,
@@ -722,6 +749,8 @@ def check_C17(F, tier, t0):
     import engine_u
     guarded(R, 'U', engine_u.rule_sudoku, F, R)
     guarded(R, 'X8', engine_x.rule_X8, F, R, 'sudoku_gen')
+    guarded(R, 'X8 flush', engine_x.rule_X8_flush, F, R, 'sudoku_gen')
+    guarded(R, 'L remarks', engine_l.rule_comment_holes, F, R, 'sudoku_gen')
     front_end(R, F)       # the emitted text means what the language's tokenizer and operator tables say it means
     evaluation(R, make_engine(F))       # ... and what the evaluator and the operations it dispatches to compute for it
     guarded(R, 'X3', engine_x.rule_X3, F, R); guarded(R, 'T filter spellings', engine_t.rule_tte, F, R)       # ... and the models are listed through the table printer (-t / -v, -f)
